@@ -191,13 +191,52 @@ def str_strip(eng, st, node, a, kw, k, ctx):
     r = fresh("strip", z3.StringSort())
     st.assume(z3.Contains(s.t, r))
     st.assume(z3.Length(r) <= z3.Length(s.t))
-    if len(a) == 1:
-        st.assume(eng_strip_fn()(s.t) == r)
-    eng.assumption_log.add("str.strip returns a contiguous part of the text (abstract otherwise)")
+    st.assume(strip_term(s.t, lift(a[1]).t if len(a) > 1 else None) == r)
+    eng.assumption_log.add("str.strip returns a contiguous part of the text (abstract otherwise: an uninterpreted function of text and character set)")
     return k(st, V(STR, r))
 
 
 _strip = {}
+
+
+def strip_term(s_t, chars_t=None):
+    if chars_t is None:
+        return eng_strip_fn()(s_t)
+    if "g" not in _strip:
+        _strip["g"] = z3.Function("str_strip_chars", z3.StringSort(), z3.StringSort(), z3.StringSort())
+    return _strip["g"](s_t, chars_t)
+
+
+# ------------------------------------------------------------------ ast.literal_eval on "(a, b)" / "(a)" text
+ufunc("lit_num", [STR, INT], REAL)      # i-th number written in a parenthesised literal (uninterpreted function of the text)
+ufunc("lit_arity", [STR], INT)          # number of tuple components of the literal; 0 for a parenthesised scalar
+ufunc("parse_float", [STR], REAL)       # float(text) (same function the engine uses for float() of a string)
+
+
+def lit_num(text_t, i_t):
+    from .specs import UFUNCS
+    return UFUNCS["lit_num"][2](text_t, i_t)
+
+
+def lit_arity(text_t):
+    from .specs import UFUNCS
+    return UFUNCS["lit_arity"][2](text_t)
+
+
+@external("make_tuple")
+def literal_eval(eng, st, node, a, kw, k, ctx):
+    txt = lift(a[0])
+    if txt.s != STR:
+        raise Unsupported("literal_eval of a non-string")
+    ok = fresh("lit_ok", z3.BoolSort())
+    for exc in ("ValueError", "SyntaxError"):
+        bad = st.fork()
+        bad.assume(z3.Not(ok))
+        eng.throw(bad, exc, node, ctx)
+    st.assume(ok)
+    st.assume(lit_arity(txt.t) >= 0)
+    eng.assumption_log.add("ast.literal_eval(text) returns the numbers written in the text, in order (lit_num(text, i), lit_arity(text)), or raises ValueError / SyntaxError (trusted)")
+    return k(st, V(("lit",), txt.t))
 
 
 def eng_strip_fn():
